@@ -1184,7 +1184,8 @@ def evaluate__xml_to_json(self: XPathFunction, context: ta.ContextType = None) \
                     if math.isnan(number) or math.isinf(number):
                         msg = f'invalid number value {value!r}'
                         raise self.error('FOJS0006', msg)
-                    chunks.append(str(number).rstrip('0').rstrip('.'))
+                    mantissa, sep, exponent = str(number).partition('e')
+                    chunks.append(mantissa.rstrip('0').rstrip('.') + sep + exponent)
 
             elif child.tag == STRING_TAG:
                 check_attributes('key', 'escaped-key', 'escaped')
